@@ -290,7 +290,13 @@ func c13CascadeScenarios() []*Scenario {
 	mk := func(name string, t1, t2 []Op) *Scenario {
 		return &Scenario{Name: "close-cascades/" + name, Spec: mixSpec(false), Setup: setup, Threads: [][]Op{t1, t2}, Final: final}
 	}
+	// provider.Close parked inside a user Close of one top-level scope while a child is created under ANOTHER
+	// top-level scope the close loop has not reached yet
+	other := &Scenario{Name: "close-cascades/provider-vs-child-of-other-scope", Spec: mixSpec(false),
+		Setup:   []Op{{Kind: "scope", Bind: "s0"}, {Kind: "scope", Bind: "s2"}, {Kind: "get", Scope: "s0", T: "D1"}, {Kind: "get", Scope: "s2", T: "D1"}},
+		Threads: [][]Op{{{Kind: "close", Scope: ""}}, {{Kind: "scope", Scope: "s2", Bind: "c1"}, {Kind: "get", Scope: "c1", T: "D1"}, {Kind: "scope", Scope: "s0", Bind: "c2"}}}, Final: final}
 	return []*Scenario{
+		other,
 		mk("parent-vs-provider", []Op{{Kind: "close", Scope: "s0"}}, append([]Op{{Kind: "close", Scope: ""}}, after("1")...)),
 		mk("parent-vs-parent", []Op{{Kind: "close", Scope: "s0"}}, append([]Op{{Kind: "close", Scope: "s0"}}, after("2")...)),
 		mk("provider-vs-parent", []Op{{Kind: "close", Scope: ""}}, append([]Op{{Kind: "close", Scope: "s0"}}, after("3")...)),
